@@ -1,13 +1,16 @@
 package main
 
 import (
-	"encoding/binary"
 	"bufio"
 	"bytes"
+	"encoding/binary"
+	"encoding/json"
 	"fmt"
+	"github.com/smallnest/rpcx/server"
 	"io"
 	"strconv"
 	"strings"
+	"time"
 
 	"github.com/smallnest/rpcx/protocol"
 
@@ -311,11 +314,75 @@ func put32at(b []byte, off int, v uint32) {
 	b[off], b[off+1], b[off+2], b[off+3] = byte(v>>24), byte(v>>16), byte(v>>8), byte(v)
 }
 
+// what a server does with a frame the decoder refused: the stream has no frame boundary any more, so nothing after the
+// refusal may be taken for a request.  An oversize frame whose body is itself a sequence of valid requests is sent to a
+// real server (MaxMessageLength set): no handler may run, no response for the inner requests may come back.
+func c02ServerAfterRefusal(o *common.Out, id string, inner int, pool bool) {
+	abstract := fmt.Sprintf("srv-too-long|%d|%v", inner, pool)
+	o.Begin(id, abstract)
+	protocol.MaxMessageLength = 128
+	defer func() { protocol.MaxMessageLength = 0 }()
+	var opts []server.OptionFn
+	if pool {
+		opts = append(opts, server.WithPool(8, 64))
+	}
+	rig := newSrvRig(false, opts...)
+	rig.start()
+	defer rig.stop()
+	p, err := rig.connect()
+	if err != nil {
+		o.Fail(id, "rig", "cannot connect: "+err.Error(), abstract)
+		return
+	}
+	defer p.close()
+	var body []byte
+	for i := 0; i < inner; i++ {
+		pl, _ := json.Marshal(map[string]interface{}{"Id": 100 + i, "A": 2 + i, "B": 3, "Mode": "ok"})
+		q := reqSpec{seq: uint64(100 + i), path: "Arith", method: "Mul", ser: 1, payload: pl}
+		body = append(body, q.frame()...)
+	}
+	var h [16]byte
+	h[0], h[3] = 8, 1<<4
+	binary.BigEndian.PutUint64(h[4:12], 7)
+	binary.BigEndian.PutUint32(h[12:16], uint32(len(body)))
+	p.conn.SetWriteDeadline(time.Now().Add(2 * time.Second))
+	p.conn.Write(append(h[:], body...))
+	// whatever comes back may only be about the outer frame (seq 7); then the connection ends or stays silent
+	deadline := time.After(400 * time.Millisecond)
+loop:
+	for {
+		select {
+		case f := <-p.frames:
+			if v := viewFrame(f); v.seq != 7 {
+				o.Fail(id, "request-from-inside-a-refused-frame", fmt.Sprintf("a response for seq %d came back: bytes inside a refused (too long) frame were taken for a request", v.seq), abstract)
+				break loop
+			}
+		case <-p.closed:
+			break loop
+		case <-deadline:
+			break loop
+		}
+	}
+	rig.h.mu.Lock()
+	n := len(rig.h.invoked)
+	rig.h.mu.Unlock()
+	if n > 0 {
+		o.Fail(id, "request-from-inside-a-refused-frame", fmt.Sprintf("%d handlers ran for requests that were only bytes inside a refused (too long) frame", n), abstract)
+	}
+	o.Count("server-after-refusal")
+	o.ImplOnly(id, abstract, true)
+}
+
 func runC02(r *common.Rand, tier string, o *common.Out, replay string) {
 	protocol.Compressors[protocol.CompressType(2)] = &protocol.SnappyCompressor{}
 	if replay != "" {
 		p := strings.Split(replay, "|")
 		max, _ := strconv.Atoi(p[1])
+		if p[0] == "srv-too-long" {
+			n, _ := strconv.Atoi(p[1])
+			c02ServerAfterRefusal(o, "replay", n, p[2] == "true")
+			return
+		}
 		if p[0] == "all" {
 			var chunks []int
 			for _, c := range strings.Split(p[2], ",") {
@@ -335,6 +402,11 @@ func runC02(r *common.Rand, tier string, o *common.Out, replay string) {
 	}
 	id := 0
 	next := func() string { id++; return fmt.Sprintf("d%d", id) }
+	for _, inner := range []int{1, 2, 4} {
+		for _, pool := range []bool{false, true} {
+			c02ServerAfterRefusal(o, next(), inner, pool)
+		}
+	}
 	nbase := 25
 	nrand := 1500
 	if tier == "thorough" {
